@@ -101,6 +101,43 @@ func mkCase(p *pgen.Program, res *pgen.Result, tmpl bool) progCase {
 	return progCase{Src: src, Tmpl: tmpl, Expected: res.Out, ExpUnc: res.Uncaught, ExpClass: res.ExcClass, ExpMsg: res.ExcMsg, Feats: featList(p)}
 }
 
+// bindingCases enumerates function calls over (defaults) x (argument vectors): one program per default
+// pair, one output line per call; the expected line is computed here.
+func bindingCases() []progCase {
+	type val struct{ Lit, Desc string }
+	vals := []val{{"null", "null"}, {"0", "i0"}, {"5", "i5"}, {"''", "s()"}, {"'q'", "s(q)"}, {"false", "false"}, {"true", "true"}}
+	defs := []val{{"2", "i2"}, {"'x'", "s(x)"}, {"null", "null"}, {"false", "false"}, {"0", "i0"}}
+	const desc = "function dsc($v) { if ($v === null) { return 'null'; } if ($v === true) { return 'true'; } if ($v === false) { return 'false'; } if (is_int($v)) { return 'i' . $v; } if (is_string($v)) { return 's(' . $v . ')'; } return '?'; }\n"
+	var out []progCase
+	for d1 := range defs {
+		for d2 := range defs {
+			var src, exp strings.Builder
+			src.WriteString("<?php\n" + desc)
+			fmt.Fprintf(&src, "function fb($a, $b = %s, $c = %s) { return dsc($a) . ',' . dsc($b) . ',' . dsc($c); }\n", defs[d1].Lit, defs[d2].Lit)
+			for _, a := range vals {
+				// b and c omitted
+				fmt.Fprintf(&src, "echo fb(%s), \"\\n\";\n", a.Lit)
+				fmt.Fprintf(&exp, "%s,%s,%s\n", a.Desc, defs[d1].Desc, defs[d2].Desc)
+				for _, b := range vals {
+					fmt.Fprintf(&src, "echo fb(%s, %s), \"\\n\";\n", a.Lit, b.Lit)
+					fmt.Fprintf(&exp, "%s,%s,%s\n", a.Desc, b.Desc, defs[d2].Desc)
+					for _, c := range vals {
+						if (d1+d2)%2 == 0 || c.Lit == "null" || b.Lit == "null" {
+							fmt.Fprintf(&src, "echo fb(%s, %s, %s), \"\\n\";\n", a.Lit, b.Lit, c.Lit)
+							fmt.Fprintf(&exp, "%s,%s,%s\n", a.Desc, b.Desc, c.Desc)
+						}
+					}
+				}
+			}
+			// the same through variables and through another call's result
+			fmt.Fprintf(&src, "$n = null; $z = 0;\nfunction nul() { return null; }\necho fb($z, $n), \"\\n\";\necho fb($n, nul(), $n), \"\\n\";\n")
+			fmt.Fprintf(&exp, "i0,null,%s\nnull,null,null\n", defs[d2].Desc)
+			out = append(out, progCase{Src: src.String(), Tmpl: true, Expected: exp.String(), Feats: "binding-matrix"})
+		}
+	}
+	return out
+}
+
 // excludeAllBut builds the exclusion set that leaves only feature x (and its prerequisites) on.
 func excludeAllBut(x string) map[string]bool {
 	ex := map[string]bool{}
@@ -181,7 +218,7 @@ func TestC02(t *testing.T) {
 	cfg := sb.LoadConfig("C02")
 	rec := sb.NewRec(cfg)
 	defer rec.Flush()
-	rec.R.Rule = "programs drawn by the typed generator pgen (assignments, if/elseif/else, while, do-while, for, foreach, switch, match, break/continue with levels, functions with defaults, recursion, static locals, return), run by origami in a sandbox worker and by the reference interpreter on the same AST; stdout and uncaught outcome must agree. First a probe campaign per construct (only that construct enabled), then the main campaign over all constructs not excluded by an active known finding. Non-trivial = reference run takes >= 1 loop back-edge or >= 1 call; distinct by program text."
+	rec.R.Rule = "programs drawn by the typed generator pgen (assignments, if/elseif/else, while, do-while, for, foreach, switch, match, break/continue with levels, functions with defaults, recursion, static locals, return), run by origami in a sandbox worker and by the reference interpreter on the same AST; stdout and uncaught outcome must agree. A call-binding matrix (25 default pairs x argument vectors over null, 0, 5, '', 'q', false, true, omitted) is enumerated completely. First a probe campaign per construct (only that construct enabled), then the main campaign over all constructs not excluded by an active known finding. Non-trivial = reference run takes >= 1 loop back-edge or >= 1 call; distinct by program text."
 	pool := &sb.Pool{}
 	defer pool.Close()
 	dl := time.Now().Add(budget(cfg, 50, 700))
@@ -216,6 +253,19 @@ func TestC02(t *testing.T) {
 	}
 	sort.Strings(exl)
 	rec.R.Extra["excluded_features"] = strings.Join(exl, ",")
+	// call-binding matrix: a parameter holds exactly the argument that was passed (null, 0, '' and false
+	// included) and its default only when the argument is omitted
+	for bi, c := range bindingCases() {
+		if !cfg.Mine(bi) {
+			continue
+		}
+		rec.Eval()
+		rec.NonTrivial(c.Src, "binding")
+		rec.Label("binding-matrix", c.Src)
+		if kind, detail := judgeProgram(pool, c); kind != "" && kind != "infra" {
+			rec.Fail("cell:binding:"+kind, detail+"\n"+clip(c.Src, 1500), c)
+		}
+	}
 	total := 4000 / cfg.NShards
 	if cfg.Thorough() {
 		total = 600000 / cfg.NShards
